@@ -1291,6 +1291,13 @@ def generate(unit_path, canaries=True):
             only = None
             if len(w) > 5 and w[4] == 'only':
                 only = [x for x in ' '.join(w[5:]).replace(',', ' ').split()]
+            derive = None
+            if 'derive' in w[4:]:
+                k = w.index('derive')
+                derive = w[k + 1]
+                w = w[:k] + w[k + 2:]
+                gen.out.nl()
+                gen.out.add(f'#[derive({derive})]\n', lambda k2, p=p, ln=ln: ('unit', p, ln))
             dropauto = 'dropauto' in w[4:]
             if dropauto:
                 w = [x for x in w if x != 'dropauto']
